@@ -595,8 +595,21 @@ func run(j *Job, evIdx int) map[string]interface{} {
 				enc = utils.NewReedSolomonEncoder(getField(j.Field))
 				rsencs[j.Obj] = enc
 			}
-			out := enc.Encode(append([]int{}, j.A...), j.N)
-			return map[string]interface{}{"kind": "ok", "out": intsOrEmpty(out)}
+			// the data is handed over as a slice with spare capacity behind it that holds other (non-zero) values, as a caller that
+			// slices a larger buffer does; Encode must neither read its padding from there nor write there
+			whole := make([]int, len(j.A)+j.N+8)
+			for i := range whole {
+				whole[i] = 1 + (i*7)%13
+			}
+			copy(whole, j.A)
+			out := enc.Encode(whole[:len(j.A)], j.N)
+			res := map[string]interface{}{"kind": "ok", "out": intsOrEmpty(out)}
+			for i := len(j.A); i < len(whole); i++ {
+				if whole[i] != 1+(i*7)%13 {
+					res["kind"] = "wrote-behind-input"
+				}
+			}
+			return res
 		})
 	case "quiesce":
 		var live int
@@ -663,8 +676,17 @@ func runBL(j *Job) map[string]interface{} {
 	case "GetBytes":
 		ret = toInts(bl.GetBytes())
 	case "IterateBytes":
+		// optional arguments: a slow consumer - pause a[0] ms after the first byte, then a[1] ms after each of the next a[2] bytes
+		// (what the channel delivers must not depend on how fast it is drained)
+		k := 0
 		for b := range bl.IterateBytes() {
 			ret = append(ret, int(b))
+			if k == 0 && len(j.A) >= 1 && j.A[0] > 0 {
+				time.Sleep(time.Duration(j.A[0]) * time.Millisecond)
+			} else if len(j.A) >= 3 && k <= j.A[2] && j.A[1] > 0 {
+				time.Sleep(time.Duration(j.A[1]) * time.Millisecond)
+			}
+			k++
 		}
 	default:
 		return map[string]interface{}{"kind": "harness", "msg": "unknown bl call"}
